@@ -212,18 +212,20 @@ ALLOWED_AXIOMS = {
 
 # ----------------------------------------------------------------------------- harness
 
-def build_harness(vh_bin="vh"):
+def build_harness(vh_bin="vh", build_flags=()):
     """go build -tags verif ./cmd/<vh_bin> against /repo's working tree (replace directive)."""
     with Lock("harness-" + vh_bin):
         with Lock("gosum"):
             shutil.copy(os.path.join(REPO, "go.sum"), os.path.join(HARNESS, "go.sum"))
-        rc, out = sh(["go", "build", "-tags", "verif", "-o", os.path.join(BIN, vh_bin), "./cmd/" + vh_bin], cwd=HARNESS, env=goenv(), timeout=1200)
+        rc, out = sh(["go", "build"] + list(build_flags) + ["-tags", "verif", "-o", os.path.join(BIN, vh_bin), "./cmd/" + vh_bin], cwd=HARNESS, env=goenv(), timeout=1800)
         return rc, out
 
 
-def run_vh(args, timeout=3000, vh_bin="vh"):
+def run_vh(args, timeout=3000, vh_bin="vh", extra_env=None):
     t0 = time.time()
-    rc, out = sh([os.path.join(BIN, vh_bin)] + [str(a) for a in args], env=goenv(), timeout=timeout)
+    e = goenv()
+    e.update(extra_env or {})
+    rc, out = sh([os.path.join(BIN, vh_bin)] + [str(a) for a in args], env=e, timeout=timeout)
     return rc, out, time.time() - t0
 
 
@@ -364,7 +366,7 @@ def shrink_list(items, still_fails, max_runs=60):
 # ----------------------------------------------------------------------------- the standard flow
 
 def standard_check(res, vh_cmd, n_cases, prop_files, model_files, theorem_note, trusted, assumptions,
-                   extra_vh_args=(), shrink_key="steps", level="proof", post=None, corpus=True, vh_bin="vh"):
+                   extra_vh_args=(), shrink_key="steps", level="proof", post=None, corpus=True, vh_bin="vh", build_flags=(), vh_env=None, extra_coverage=None):
     """Proof obligations + correspondence + oracle for one property.
 
     prop_files : theories/... files whose theorems state the property (must build, must be axiom-free)
@@ -390,7 +392,7 @@ def standard_check(res, vh_cmd, n_cases, prop_files, model_files, theorem_note, 
     obligations = len(pa["printed"]) if not broken else len(re.findall(r"Print Assumptions", open(os.path.join(COQ, "theories/Properties/%s.v" % prop)).read()))
     discharged = 0 if broken else len([b for b in pa["printed"]])
 
-    rc, out = build_harness(vh_bin)
+    rc, out = build_harness(vh_bin, build_flags)
     if rc != 0:
         res.violation("harness-build", "harness does not build against /repo", {"error": out[-3000:],
                       "broken": "the correspondence harness no longer compiles against /repo's working tree"}, found_input=False)
@@ -415,7 +417,8 @@ def standard_check(res, vh_cmd, n_cases, prop_files, model_files, theorem_note, 
                         raise RuntimeError("vh failed on corpus %s:\n%s" % (f, o[-3000:]))
                     dirs.append((d, "corpus/" + f))
         d = os.path.join(work, "gen")
-        rc, o, wall = run_vh([vh_cmd, "-seed", res.seed, "-n", n_cases, "-out", d, "-tier", res.tier] + list(extra_vh_args), vh_bin=vh_bin)
+        rc, o, wall = run_vh([vh_cmd, "-seed", res.seed, "-n", n_cases, "-out", d, "-tier", res.tier] + list(extra_vh_args), vh_bin=vh_bin,
+                              extra_env=(vh_env(work) if callable(vh_env) else vh_env))
         if rc != 0:
             raise RuntimeError("vh %s failed:\n%s" % (vh_cmd, o[-3000:]))
         dirs.append((d, "generated"))
@@ -476,8 +479,9 @@ def standard_check(res, vh_cmd, n_cases, prop_files, model_files, theorem_note, 
             res.violation("audit", "forbidden construct in the Coq development", {"broken": audit}, found_input=False)
         if bad_ax:
             res.violation("axioms", "property theorem depends on an axiom outside the allow-list", {"broken": bad_ax}, found_input=False)
+        extra_cov = {}
         if post:
-            post(res, work)
+            extra_cov = post(res, work) or {}
         cov = {"obligations": max(obligations, 1), "discharged": discharged,
                "checker_cmd": "coq_makefile -f _CoqProject -o Makefile.coq && make -f Makefile.coq -k -j16 (coqc 8.16.1, full .vo build); coqc theories/Properties/%s.v for Print Assumptions" % prop,
                "trusted_base": trusted,
@@ -486,6 +490,8 @@ def standard_check(res, vh_cmd, n_cases, prop_files, model_files, theorem_note, 
                "traces_validated_against_impl": total_cases, "correspondence_mismatches": n_mism, "oracle_violations": n_oracle,
                "input_distribution": stats, "samples": samples[:4], "coq_build_s": round(build["wall_s"], 1),
                "known_findings_hit": res.known}
+        cov.update(extra_cov)
+        cov.update(extra_coverage or {})
         res.evidence(level, cov, assumptions)
     finally:
         shutil.rmtree(work, ignore_errors=True)
